@@ -193,6 +193,57 @@ func precisions(f *ast.File) []int {
 	return out
 }
 
+var printfRe = regexp.MustCompile(`printf ("(?:[^"\\]|\\.)*")`)
+var shortenRe = regexp.MustCompile(`shorten \$[A-Za-z]+\.Name ([0-9]+)`)
+var totalsHeadRe = regexp.MustCompile(`(?s)\{\{- if \.Totals \}\}\n(.*?)\n\{\{- range`)
+
+// the row formats of a register template: the format strings of its `printf` actions, in order (food row, ingredient row,
+// total row), the widths passed to `shorten`, and the literal line that opens the totals block
+func templateFacts(tmpl string, what string, defFormats []string, defWidths []int, defHead string) ([]string, []int, string) {
+	var formats []string
+	for _, m := range printfRe.FindAllStringSubmatch(tmpl, -1) {
+		if f, err := strconv.Unquote(m[1]); err == nil {
+			formats = append(formats, f)
+		}
+	}
+	if len(formats) != 3 {
+		fallback("the three printf formats of " + what)
+		formats = defFormats
+	}
+	var widths []int
+	for _, m := range shortenRe.FindAllStringSubmatch(tmpl, -1) {
+		n, _ := strconv.Atoi(m[1])
+		widths = append(widths, n)
+	}
+	if len(widths) != len(defWidths) {
+		fallback("the shorten widths of " + what)
+		widths = defWidths
+	}
+	head := defHead
+	if m := totalsHeadRe.FindStringSubmatch(tmpl); m != nil {
+		head = m[1]
+	} else {
+		fallback("the line that opens the totals block of " + what)
+	}
+	return formats, widths, head
+}
+
+func bytesLits(ss []string) string {
+	parts := make([]string, len(ss))
+	for i, s := range ss {
+		parts[i] = bytesLit(s)
+	}
+	return "[" + strings.Join(parts, ", ") + "]"
+}
+
+func natLits(ns []int) string {
+	parts := make([]string, len(ns))
+	for i, n := range ns {
+		parts[i] = strconv.Itoa(n)
+	}
+	return "[" + strings.Join(parts, ", ") + "]"
+}
+
 func main() {
 	repo := "/repo"
 	if len(os.Args) > 1 {
@@ -209,6 +260,18 @@ func main() {
 	csvd := parse(filepath.Join(cli, "csv", "csv_database_reporter.go"))
 	pr := parse(filepath.Join(cli, "print", "print_reporter.go"))
 	tree := consts(parseDir(repo))
+	reg := consts(parseDir(filepath.Join(cli, "register")))
+	dFmt, dW, dHead := templateFacts(str(reg, "defaultTemplate", ""), "register.defaultTemplate",
+		[]string{"\t%-27s :%s", "\t\t%20s %s", "\t\t%20s %s %s =%s"}, []int{27, 20, 20},
+		"\t-- TOTAL  ----------------------------------------------------")
+	oFmt := callArgs(parse(filepath.Join(cli, "register", "reg_reporter.go")), "fmt.Fprintf", 1)
+	if len(oFmt) != 5 {
+		fallback("the five fmt.Fprintf formats of reg_reporter.go")
+		oFmt = []string{"%s\n", "\t%-27s :%s\n", "\t\t%20s %s\n", "\t-- %s %s\n", "\t\t%20s %s %s =%s\n"}
+	}
+	lFmt, lW, lHead := templateFacts(str(reg, "leftAlignedTemplate", ""), "register.leftAlignedTemplate",
+		[]string{"  %s  %s", "  %s    %s", "  %s %s = %s  %s"}, []int{},
+		"------------------------------------------------------- TOTAL --")
 
 	cut := callArgs(p, "strings.LastIndexAny", 1)
 	if len(cut) != 1 {
@@ -276,6 +339,18 @@ func main() {
 	w("def printPrecision : Nat := %d", pp[0])
 	w("/-- hranoprovod.DefaultCategorySeparator -/")
 	w("def categorySeparator : List UInt8 := %s", bytesLit(str(tree, "DefaultCategorySeparator", "/")))
+	w("/-- register.defaultTemplate: the formats of its printf actions (food row, ingredient row, total row) -/")
+	w("def regDefaultFormats : List (List UInt8) := %s", bytesLits(dFmt))
+	w("/-- register.defaultTemplate: the widths passed to shorten (food, ingredient, total) -/")
+	w("def regDefaultShorten : List Nat := %s", natLits(dW))
+	w("/-- register.defaultTemplate: the literal line that opens the totals block -/")
+	w("def regDefaultTotalsHead : List UInt8 := %s", bytesLit(dHead))
+	w("/-- register.leftAlignedTemplate: the formats of its printf actions -/")
+	w("def regLeftFormats : List (List UInt8) := %s", bytesLits(lFmt))
+	w("def regLeftShorten : List Nat := %s", natLits(lW))
+	w("/-- reg_reporter.go (the old reporter): the formats of its fmt.Fprintf calls (date, food, ingredient, totals head, total) -/")
+	w("def regOldFormats : List (List UInt8) := %s", bytesLits(oFmt))
+	w("def regLeftTotalsHead : List UInt8 := %s", bytesLit(lHead))
 	w("")
 	w("end Hrano.Facts")
 	fmt.Println("/- GENERATED by tools/facts from the repository's current source on every run of a check. Do not edit. -/")
